@@ -3251,10 +3251,9 @@ impl RelationalEngine {
                 });
             }
 
-            // Index gives us row IDs - take only what we need
-            let limited_ids: Vec<u64> = row_ids.into_iter().take(target_count).collect();
-
-            let indices: Vec<usize> = limited_ids
+            // The index yields a superset of the matches, in index order rather than id order:
+            // every candidate has to be re-checked and sorted before OFFSET / LIMIT apply.
+            let indices: Vec<usize> = row_ids
                 .iter()
                 .filter_map(|id| usize::try_from(id.saturating_sub(1)).ok())
                 .collect();
